@@ -35,7 +35,18 @@ PROPS["C10"] = dict(
                 "action:community:add", "action:community:remove", "action:community:replace", "action:ext-community:add", "action:ext-community:remove",
                 "action:ext-community:replace", "action:large-community:add", "action:large-community:remove", "action:large-community:replace",
                 "action:med:replace", "action:med:add", "action:med:sub", "action:local-pref", "action:origin", "action:as-path-prepend:asn",
-                "action:as-path-prepend:last-as", "action:next-hop:address", "action:next-hop:self", "action:next-hop:unchanged", "action:next-hop:peer-address"],
+                "action:as-path-prepend:last-as", "action:next-hop:address", "action:next-hop:self", "action:next-hop:unchanged", "action:next-hop:peer-address",
+                # unit "e2e" (daemon level: ListPath views and the wire views of two targets)
+                "e2e:c10:scenarios", "e2e:c10:nontrivial_scenarios", "e2e:c10:mode:rs", "e2e:c10:mode:plain", "e2e:c10:routes", "e2e:c10:import:accepted", "e2e:c10:import:rejected",
+                "e2e:c10:import:decided_by:statement:accept", "e2e:c10:import:decided_by:statement:reject", "e2e:c10:import:decided_by:default:accept", "e2e:c10:import:decided_by:default:reject",
+                "e2e:c10:export:decided_by:statement:accept", "e2e:c10:export:decided_by:statement:reject", "e2e:c10:export:decided_by:default:accept", "e2e:c10:export:decided_by:default:reject",
+                "e2e:c10:cond_true:prefix:any", "e2e:c10:cond_true:prefix:invert", "e2e:c10:cond_true:neighbor:any", "e2e:c10:cond_true:neighbor:invert",
+                "e2e:c10:cond_true:as-path:any", "e2e:c10:cond_true:as-path:all", "e2e:c10:cond_true:as-path:invert", "e2e:c10:cond_true:community:any", "e2e:c10:cond_true:community:all",
+                "e2e:c10:cond_true:community:invert", "e2e:c10:cond_true:as-path-length",
+                "e2e:c10:action:community:add", "e2e:c10:action:community:remove", "e2e:c10:action:community:replace", "e2e:c10:action:large-community:add", "e2e:c10:action:large-community:remove",
+                "e2e:c10:action:large-community:replace", "e2e:c10:action:med:replace", "e2e:c10:action:med:mod", "e2e:c10:action:local-pref", "e2e:c10:action:as-path-prepend:asn",
+                "e2e:c10:action:as-path-prepend:last-as", "e2e:c10:targets_differ", "e2e:c10:wire_routes_compared", "e2e:c10:listpath:adj-in", "e2e:c10:listpath:adj-in-filtered",
+                "e2e:c10:listpath:loc-rib", "e2e:c10:listpath:adj-out"],
     units=[dict(name="table", harness="t_table", files=["common_", "c10_"], run="TestVerifC10",
                 shards=dict(quick=16, thorough=16), timeout_s=dict(quick=900, thorough=7200)),
            dict(name="e2e", harness="t_server", files=["sim_", "e2e_"], run="TestVerifE2E_C10",
